@@ -1,6 +1,9 @@
 package component
 
-import "io"
+import (
+	"errors"
+	"io"
+)
 
 var _ DataComponent = (*Enchantments)(nil)
 
@@ -13,7 +16,7 @@ func (Enchantments) ID() string {
 
 // ReadFrom implements DataComponent.
 func (r *Enchantments) ReadFrom(reader io.Reader) (n int64, err error) {
-	panic("unimplemented")
+	return 0, errors.New("component: ReadFrom is not implemented")
 }
 
 // WriteTo implements DataComponent.
